@@ -64,6 +64,7 @@ type scenario struct {
 	TickDeltaNs int64 `json:"tickDeltaNs,omitempty"`
 	SamePort  bool   `json:"samePort,omitempty"` // the remotes share one port and differ in a high octet of their address (127.<i>.7.9:7001) instead of sharing the address
 	ReadBuf   int    `json:"readBuf,omitempty"` // readers use slices of this length (0: large): longer datagrams come back cut, with a short-buffer error, and are consumed whole
+	NoAccept  bool   `json:"noAccept,omitempty"` // C12: nobody calls Accept: every connection stays in the backlog until the listener is closed
 	BadFirst  bool   `json:"badFirst,omitempty"` // a Listen with an invalid batch configuration is refused first; it must not keep the port
 	ReadGapNs int64  `json:"readGapNs,omitempty"` // readers pause this long before every Read (lagging readers keep data in the connection's ring)
 }
@@ -104,6 +105,7 @@ func gen(r *harn.Rng, tier string) interface{} {
 		sc.ReadBuf = r.Pick(8, 16, 100, 1000)
 	}
 	sc.BadFirst = r.Bool(0.15)
+	sc.NoAccept = prop == "C12" && r.Bool(0.08)
 	for i := 0; i < 6; i++ {
 		sc.CloseAfter = append(sc.CloseAfter, r.Pick(0, 0, 0, 1, 2, 3))
 		t := int64(0)
@@ -259,8 +261,11 @@ func run(env *simrt.Env, sci interface{}) {
 		}
 	}
 	var hs []*simrt.Handle
+	if sc.NoAccept {
+		acceptorDone = true
+	}
 	_ = env.Go("acceptor", func() {
-		for {
+		for !sc.NoAccept {
 			env.Enter("Accept")
 			c, err := l.Accept()
 			env.Leave()
@@ -365,6 +370,27 @@ func run(env *simrt.Env, sci interface{}) {
 		if _, err := l.Accept(); err == nil {
 			env.Fail("C12/accept-after-close", "Accept succeeded after the listener was closed")
 			return
+		}
+		if sc.Batch && sc.DropP == 0 && sc.DelayP == 0 {
+			// a full write batch first (it is flushed at once), then a long silence: the partial
+			// batches written afterwards must still be flushed by the interval timer
+			for _, c := range conns {
+				if c.closeInv != 0 {
+					continue
+				}
+				ri := int(c.remoteIndex())
+				p1, p2 := []byte{0xA8, byte(c.idx), 1, 2, 3, 4, 5, 6}, []byte{0xA9, byte(c.idx), 1, 2, 3, 4, 5, 6}
+				_, e1 := c.conn.Write(p1)
+				_, e2 := c.conn.Write(p2)
+				env.Sleep(3 * time.Hour)
+				settle()
+				if e1 == nil && e2 == nil && !(pollFor(peers[ri], p1) && pollFor(peers[ri], p2)) {
+					env.Fail("C12/accepted-conn-cannot-send", "two datagrams (a full write batch) written on connection #%d after the listener was closed did not both reach its remote", c.idx)
+					return
+				}
+				env.Probe("full-batch-after-listener-close")
+				break
+			}
 		}
 		for _, c := range conns {
 			if c.closeInv != 0 {
@@ -484,6 +510,10 @@ func run(env *simrt.Env, sci interface{}) {
 			env.Fail("C12/close-not-idempotent", "second Close of connection #%d: %v", c.idx, err)
 			return
 		}
+	}
+	if c12 && !socketFault && sc.LastWrite == "" && simnet.Bound(lkey) {
+		env.Fail("C12/socket-not-closed", "every Close call (listener and %d accepted connections) has returned, yet the shared socket is still open at that moment", len(conns))
+		return
 	}
 	settle()
 	if env.Failed() {
